@@ -27,7 +27,7 @@ import (
 	"github.com/tinode/chat/server/store/types"
 )
 
-type kScn struct {
+type c07Scn struct {
 	id       string
 	out      *bufio.Writer
 	uids     map[int]types.Uid
@@ -40,7 +40,7 @@ type kScn struct {
 	rend     *vScn
 }
 
-func (sc *kScn) userName(i int) string {
+func (sc *c07Scn) userName(i int) string {
 	if u, ok := sc.uids[i]; ok {
 		return u.UserId()
 	}
@@ -48,7 +48,7 @@ func (sc *kScn) userName(i int) string {
 }
 
 // client-side topic name of a reference
-func (sc *kScn) ref(user int, r string) string {
+func (sc *c07Scn) ref(user int, r string) string {
 	switch {
 	case r == "me" || r == "fnd" || r == "sys":
 		return r
@@ -75,37 +75,37 @@ func (sc *kScn) ref(user int, r string) string {
 	return r
 }
 
-type kTopic struct{ tok, name string }
+type c07Topic struct{ tok, name string }
 
 // watched topics in canonical order: me and fnd of every user, sys, every p2p pair, every group
-func (sc *kScn) watched() []kTopic {
+func (sc *c07Scn) watched() []c07Topic {
 	var us []int
 	for i := range sc.uids {
 		us = append(us, i)
 	}
 	sort.Ints(us)
-	var res []kTopic
+	var res []c07Topic
 	for _, i := range us {
-		res = append(res, kTopic{"m" + strconv.Itoa(i), sc.uids[i].UserId()})
+		res = append(res, c07Topic{"m" + strconv.Itoa(i), sc.uids[i].UserId()})
 	}
 	for _, i := range us {
-		res = append(res, kTopic{"f" + strconv.Itoa(i), sc.uids[i].FndName()})
+		res = append(res, c07Topic{"f" + strconv.Itoa(i), sc.uids[i].FndName()})
 	}
-	res = append(res, kTopic{"sys", "sys"})
+	res = append(res, c07Topic{"sys", "sys"})
 	for _, i := range us {
 		for _, j := range us {
 			if i < j {
-				res = append(res, kTopic{fmt.Sprintf("p%d.%d", i, j), sc.uids[i].P2PName(sc.uids[j])})
+				res = append(res, c07Topic{fmt.Sprintf("p%d.%d", i, j), sc.uids[i].P2PName(sc.uids[j])})
 			}
 		}
 	}
 	for k, g := range sc.grp {
-		res = append(res, kTopic{"g" + strconv.Itoa(k+1), g})
+		res = append(res, c07Topic{"g" + strconv.Itoa(k+1), g})
 	}
 	return res
 }
 
-func (sc *kScn) names() []string {
+func (sc *c07Scn) names() []string {
 	var r []string
 	for _, t := range sc.watched() {
 		r = append(r, t.name)
@@ -113,7 +113,7 @@ func (sc *kScn) names() []string {
 	return r
 }
 
-func (sc *kScn) quiet() string {
+func (sc *c07Scn) quiet() string {
 	h := vWaitQuiet(sc.names())
 	for _, n := range sc.names() {
 		if t := globals.hub.topicGet(n); t != nil && len(t.sessions) == 0 && t.killTimer != nil {
@@ -123,7 +123,7 @@ func (sc *kScn) quiet() string {
 	return h
 }
 
-func kMode(m types.AccessMode) string {
+func c07Mode(m types.AccessMode) string {
 	s := vModeStr(m)
 	if s == "" {
 		return "_"
@@ -131,16 +131,16 @@ func kMode(m types.AccessMode) string {
 	return s
 }
 
-func (sc *kScn) dump() {
+func (sc *c07Scn) dump() {
 	for _, t := range sc.watched() {
-		subs := memverif.DumpSubs(t.name)
+		subs := memverif.DumpSubsC07(t.name)
 		var rows []string
 		for _, s := range subs {
 			i, ok := sc.uidIdx[s.User]
 			if !ok {
 				continue // rows of earlier scenarios (sys)
 			}
-			rows = append(rows, fmt.Sprintf("%d:%s/%s:%s", i, kMode(s.Want), kMode(s.Given), vB2s(s.Deleted)))
+			rows = append(rows, fmt.Sprintf("%d:%s/%s:%s", i, c07Mode(s.Want), c07Mode(s.Given), vB2s(s.Deleted)))
 		}
 		sort.Strings(rows)
 		if len(rows) > 0 {
@@ -157,7 +157,7 @@ func (sc *kScn) dump() {
 						continue
 					}
 				}
-				es = append(es, fmt.Sprintf("%d:%s/%s:%s", i, kMode(p.modeWant), kMode(p.modeGiven), vB2s(p.deleted)))
+				es = append(es, fmt.Sprintf("%d:%s/%s:%s", i, c07Mode(p.modeWant), c07Mode(p.modeGiven), vB2s(p.deleted)))
 			}
 			sort.Strings(es)
 			var ss []string
@@ -174,7 +174,7 @@ func (sc *kScn) dump() {
 	}
 }
 
-func (sc *kScn) op(w []string) {
+func (sc *c07Scn) op(w []string) {
 	sc.opi++
 	fmt.Fprintf(sc.out, "op %d\n", sc.opi)
 	si, _ := strconv.Atoi(w[0])
@@ -257,7 +257,7 @@ func (sc *kScn) op(w []string) {
 	sc.dump()
 }
 
-func (sc *kScn) finish() {
+func (sc *c07Scn) finish() {
 	for _, vs := range sc.sess {
 		vs.s.cleanUp(true)
 		<-vs.done
@@ -308,7 +308,7 @@ func TestVerifC07(t *testing.T) {
 	in.Buffer(make([]byte, 1<<20), 1<<26)
 	oldLimit := globals.maxSubscriberCount
 	defer func() { globals.maxSubscriberCount = oldLimit }()
-	var sc *kScn
+	var sc *c07Scn
 	for in.Scan() {
 		w := strings.Fields(in.Text())
 		if len(w) == 0 {
@@ -317,7 +317,7 @@ func TestVerifC07(t *testing.T) {
 		switch w[0] {
 		case "kscn":
 			kv := vKV(w[2:])
-			sc = &kScn{id: w[1], out: out, uids: map[int]types.Uid{}, uidIdx: map[types.Uid]int{}, root: map[int]bool{},
+			sc = &c07Scn{id: w[1], out: out, uids: map[int]types.Uid{}, uidIdx: map[types.Uid]int{}, root: map[int]bool{},
 				sess: map[int]*vSess{}, sessUser: map[int]int{}}
 			sc.rend = &vScn{uids: sc.uids, uidIdx: sc.uidIdx}
 			if l, err := strconv.Atoi(kv["limit"]); err == nil && l > 0 {
